@@ -61,7 +61,7 @@ def transpose(adj):
 
 def run_case(tag, adj, policy, hosts, seed, rounds, tier, fo, timeout=600):
     """runs one (graph, policy, hosts) case and appends its merged log to fo; returns (rc, tail of output, records)"""
-    d = os.path.join(BUILD, "tmp", "dsync_" + tag)
+    d = os.path.join(BUILD, "tmp", "dsync_%d_%s" % (os.getpid(), tag))
     os.makedirs(d, exist_ok=True)
     for p in glob.glob(os.path.join(d, "*")):
         os.remove(p)
